@@ -168,6 +168,16 @@ func TestC16(t *testing.T) {
 			if pv, st := guard(func() { tm = hessian.TypeMapOf(tt) }); pv != nil {
 				directFail(t, "C16", map[string]interface{}{"type": tt.String(), "entry": "TypeMapOf"}, "C16 TypeMapOf(%v) panicked: %v [%s]", tt, pv, st)
 			}
+			// the returned map belongs to the caller: scribbling over it must not show in a later call
+			keys := mapKeys(tm)
+			for _, k := range keys {
+				tm["alias."+k] = reflect.TypeOf(0)
+				tm[k] = reflect.TypeOf("")
+			}
+			tm = hessian.TypeMapOf(tt)
+			if len(tm) != len(keys) {
+				directFail(t, "C16", map[string]interface{}{"type": tt.String(), "entry": "TypeMapOf"}, "C16 TypeMapOf(%v): a second call returned %d entries, the first %d: the caller's changes to the first result leaked into it", tt, len(tm), len(keys))
+			}
 			for _, st := range reachable(tt).structs {
 				if got, ok := tm[st.Name()]; !ok || got != st {
 					directFail(t, "C16", map[string]interface{}{"type": tt.String(), "entry": "TypeMapOf"}, "C16 TypeMapOf(%v) lacks reachable struct type %v (has %v)", tt, st, mapKeys(tm))
@@ -212,7 +222,15 @@ func TestC16(t *testing.T) {
 		if msg := closed(typ, tm, nm); msg != "" {
 			failf(rt, c, "C16 maps extracted from a %s witness of %s are not closed/consistent: %s\n witness: %s", fill, typ.Name(), msg, zoo.Describe(witness, 300))
 		}
-		// the two single-map entry points agree with the pair
+		// the two single-map entry points agree with the pair (and a caller may do what it likes
+		// with maps it was handed earlier)
+		scribbleT, scribbleN := hessian.ExtractTypeNameMap(witness)
+		for k := range scribbleT {
+			scribbleT[k] = reflect.TypeOf(0)
+		}
+		for k := range scribbleN {
+			scribbleN[k] = "scribbled"
+		}
 		tm2, nm2 := hessian.TypeMapFrom(witness), hessian.NameMapFrom(witness)
 		if !reflect.DeepEqual(tm, tm2) || !reflect.DeepEqual(nm, nm2) {
 			failf(rt, c, "C16 TypeMapFrom/NameMapFrom disagree with ExtractTypeNameMap for %s", typ.Name())
